@@ -1,14 +1,17 @@
 """C12/C15 run-time side: the real AutoDecoder with its decoder table replaced by scripted decoders (same table names)."""
 import construct
 from han import autodecoder
+class _D(dict):
+    """dictionary returned by scripted decoder k (possibly empty)"""
+    def __init__(s, k, nonempty): dict.__init__(s, {"decoder": k} if nonempty else {}); s.k = k
 def replay_auto(p):
-    w = p["witness"]; outs = w.get("outcomes", []); prev = w.get("prev")
+    w = p["witness"]; outs = w.get("outcomes", []); prev = w.get("prev"); empty = w.get("empty", [])
     orig = autodecoder.AutoDecoder.payload_decoder_functions
     N = len(orig)
     def mk(k):
         def dec(payload):
             o = outs[k] if k < len(outs) else 1
-            if o == 0: return {"decoder": k}
+            if o == 0: return _D(k, not (k < len(empty) and empty[k]))
             raise (construct.ConstructError("x") if o == 1 else ValueError("x"))
         return dec
     try:
@@ -17,7 +20,7 @@ def replay_auto(p):
         try: res = d.decode_message_payload(b"\x01")
         except Exception as ex: return {"violated": True, "detail": f"decode_message_payload raised {ex!r}"}
         acc = [k for k in range(N) if k < len(outs) and outs[k] == 0]
-        got = None if res is None else res.get("decoder")
+        got = None if res is None else getattr(res, "k", None)
         newp = d._AutoDecoder__previous_success
         if not acc: bad = got is not None or newp != prev
         else: bad = got not in acc or newp != got or (prev is not None and prev in acc and got != prev)
